@@ -82,6 +82,12 @@ Theorem C01_l1_merge_refines : forall (w : world) o ta tb a b r,
 Proof. exact merge_refines. Qed.
 Print Assumptions C01_l1_merge_refines.
 
+(* the invariant checked on every dumped implementation state (inv_b, evaluated by vm_compute in the correspondence)
+   implies the L0 invariant of the table it denotes: the theorems above apply to abs of every dump that passed *)
+Theorem C01_dump_invariant_implies_L0_invariant : forall t, inv_b t = true -> twf (abs t).
+Proof. exact inv_b_twf. Qed.
+Print Assumptions C01_dump_invariant_implies_L0_invariant.
+
 (* non-vacuity: a concrete history mixing column kinds, selection, sort order, resize and merge *)
 Definition ex_history : list op :=
   [ONew 3; OSetColKind 0 "f" KFloat; OSetCol 0 "a" (RSeq [PInt 3; PStr "x" None None; PNone]);
